@@ -24,4 +24,5 @@ for clo in (0, 2, 4):
     OBLIGATIONS.append(md("cfb.s1.cut%d_%d" % (clo, min(clo + 1, 5)), "h_cfb", "CFB-8 (s = 1): one-shot = reference, inverse, in place, streaming", ["sm4_cfb.c"], 5,
                           defs=["-DN=5", "-DSMIN=1", "-DSMAX=1", "-DCMIN=%d" % clo, "-DCMAX=%d" % min(clo + 1, 5)], bounds="message of 5 bytes, segment size 1, chunk boundary %d..%d" % (clo, min(clo + 1, 5))))
 OBLIGATIONS.append(md("ctr_incr", "h_ctr_incr", "CTR / CTR32 counter increment: +1 mod 2^128 / low 32 bits only", [], 1, exact=True, bounds="none (all counters)"))
+OBLIGATIONS.append(md("cbc_padding_arbitrary", "h_cbc_padding_arbitrary", "sm4_cbc_padding_decrypt on arbitrary ciphertext: accepted => padding length 1..16 and consistent length; correctly padded input accepted", ["sm4_cbc.c"], 16, bounds="arbitrary ciphertexts of 16 and 32 bytes"))
 NOTE = "C04: ciphers and modes."
